@@ -179,19 +179,22 @@ def isDigit (b : UInt8) : Bool := 48 ≤ b && b ≤ 57
 
 def digitsVal (ds : Bytes) : Nat := ds.foldl (fun acc d => acc * 10 + (d.toNat - 48)) 0
 
-/-- `strconv.Atoi`: optional sign, at least one digit, digits only, value inside int64. -/
-def atoi (s : Bytes) : Option Int :=
-  let (neg, ds) : Bool × Bytes :=
-    match s with
-    | 43 :: r => (false, r)
-    | 45 :: r => (true, r)
-    | _ => (false, s)
+/-- optional sign of `strconv.Atoi` -/
+def splitSign : Bytes → Bool × Bytes
+  | 43 :: r => (false, r)
+  | 45 :: r => (true, r)
+  | s => (false, s)
+
+def atoiDigits (neg : Bool) (ds : Bytes) : Option Int :=
   if ds.isEmpty then none
   else if !(ds.all isDigit) then none
   else
     let v := digitsVal ds
     if neg then (if v ≤ 9223372036854775808 then some (-(Int.ofNat v)) else none)
     else (if v ≤ 9223372036854775807 then some (Int.ofNat v) else none)
+
+/-- `strconv.Atoi`: optional sign, at least one digit, digits only, value inside int64. -/
+def atoi (s : Bytes) : Option Int := atoiDigits (splitSign s).1 (splitSign s).2
 
 def natDigitsAux : Nat → Nat → Bytes → Bytes
   | 0, _, acc => acc
